@@ -195,6 +195,11 @@ func (s Status) getError(ctxErr error, threshold, thresholdSinks int) error {
 func (b *Broker) Send(ctx context.Context, t EventType, payload interface{}) (Status, error) {
 	b.lock.RLock()
 	g, ok := b.graphs[t]
+	var threshold, thresholdSinks int
+	if ok {
+		// The thresholds are guarded by the broker's lock, so read them here.
+		threshold, thresholdSinks = g.successThreshold, g.successThresholdSinks
+	}
 	b.lock.RUnlock()
 
 	if !ok {
@@ -208,7 +213,7 @@ func (b *Broker) Send(ctx context.Context, t EventType, payload interface{}) (St
 		Payload:   payload,
 	}
 
-	return g.process(ctx, e)
+	return g.processWithThresholds(ctx, e, threshold, thresholdSinks)
 }
 
 // Reopen calls every registered Node's Reopen() function.  The intention is to
